@@ -31,6 +31,33 @@ impl Var {
         Var::default()
     }
 
+    #[cfg(ae9rb_basic_lang_verif)]
+    #[allow(clippy::type_complexity)]
+    pub fn verif_dump(&self) -> (Vec<(String, Val)>, Vec<(String, Vec<i16>)>, [u8; 26]) {
+        let mut vars: Vec<(String, Val)> = self
+            .vars
+            .iter()
+            .map(|(k, v)| (k.to_string(), v.clone()))
+            .collect();
+        vars.sort_by(|a, b| a.0.cmp(&b.0));
+        let mut dims: Vec<(String, Vec<i16>)> = self
+            .dims
+            .iter()
+            .map(|(k, v)| (k.to_string(), v.clone()))
+            .collect();
+        dims.sort_by(|a, b| a.0.cmp(&b.0));
+        let mut types = [0u8; 26];
+        for (t, out) in self.types.iter().zip(types.iter_mut()) {
+            *out = match t {
+                VarType::Integer => 0,
+                VarType::Single => 1,
+                VarType::Double => 2,
+                VarType::String => 3,
+            };
+        }
+        (vars, dims, types)
+    }
+
     pub fn clear(&mut self) {
         self.vars.clear();
         self.dims.clear();
